@@ -195,6 +195,15 @@ impl Domain {
     }
 }
 
+/// Verification hook (built only with `--cfg erbium_verif`): the labels of a
+/// name as raw octets.
+#[cfg(erbium_verif)]
+impl Domain {
+    pub fn verif_labels(&self) -> Vec<Vec<u8>> {
+        self.0.iter().map(|l| l.0.clone()).collect()
+    }
+}
+
 impl From<Vec<Label>> for Domain {
     fn from(mut v: Vec<Label>) -> Self {
         v.shrink_to_fit();
